@@ -116,6 +116,32 @@ def rule_patch(R):
              % (show(idx), show(val)), where=span)
 
 
+def cursor_shape(t):
+    """canonical description of a running-offset value: {0, 'acc+len'} for `cursor = 0; loop { cursor += entry.len }`,
+    whatever local (or accumulator pair) carries it.  Terms of loop-carried values depend on where the cycle is cut, so
+    two readings of the same variable are compared by this shape rather than literally."""
+    out = set()
+    for alt in phi_alts(t):
+        a = peel(alt)
+        if a[0] == "field" and a[1][0] == "bin":
+            a = a[1]
+        if a[0] == "const" and a[2] is not None:
+            out.add(a[2])
+        elif a[0] == "loop":
+            out.add("acc")
+        elif a[0] == "bin" and a[1].startswith("Add"):
+            sides = [a[2], a[3]]
+            lens = [x for x in sides if chain(x, extra=ELEM)[1][-1:] == ["len"]]
+            rest = [x for x in sides if x not in lens]
+            if len(lens) == 1 and len(rest) == 1 and (any(y[0] == "loop" for y in walk(rest[0])) or cursor_shape(rest[0]) <= {0, "acc", "acc+len"}):
+                out.add("acc+len")
+            else:
+                out.add("?" + show(a)[:40])
+        else:
+            out.add("?" + show(a)[:40])
+    return out
+
+
 def rule_compact(R):
     f = R.f
     b = roles.method(f, OUTBOUND, "compact")
@@ -141,7 +167,9 @@ def rule_compact(R):
     # entry.offset = cursor ; used = cursor ; cursor += entry.len
     offs = [(bb, b.rvalue_term(rv)) for (bb, j, dst, rv, s) in b.stores() if chain(b.place_term(dst), extra=ELEM)[1][-1:] == ["offset"]]
     used = [(bb, b.rvalue_term(rv)) for (bb, j, dst, rv, s) in b.stores() if chain(b.place_term(dst))[1] == ["used"]]
-    okw = len(offs) == 1 and len(used) == 1 and cursor_term is not None and same_shape(offs[0][1], cursor_term) and same_shape(used[0][1], cursor_term)
+    def is_cursor(t):
+        return same_shape(t, cursor_term) or (cursor_shape(t) - {"acc"} == {0, "acc+len"} and cursor_shape(cursor_term) - {"acc"} == {0, "acc+len"})
+    okw = len(offs) == 1 and len(used) == 1 and cursor_term is not None and is_cursor(offs[0][1]) and is_cursor(used[0][1])
     R.ob("compact/bookkeeping", okw,
          "after the move the entry's offset is the cursor, and when the loop ends `used` is the cursor", where=b.span)
     okc = False
@@ -155,6 +183,7 @@ def rule_compact(R):
                 if ["len"] in names and any(x[0] == "loop" for x in walk(a)):
                     okc = True
         okc = okc and any(peel(a)[0] == "const" and peel(a)[2] == 0 for a in phi_alts(cursor_term))
+        okc = okc or cursor_shape(cursor_term) - {"acc"} == {0, "acc+len"}
     R.ob("compact/cursor", okc, "the cursor starts at 0 and advances by each entry's length", where=b.span)
     # the loop visits the retained list in order
     it = [c for c in b.calls.values() if c.bb in b.reachable and c.is_("iter_mut", "into_iter")]
@@ -167,8 +196,13 @@ def rule_compact(R):
         for bb in b.switches:
             si = b.switch_info(bb)
             s = peel(si["subject"])
-            if s[0] == "bin" and s[1] == "Ne" and si["edges"].get(True) is not None and b.must_pass([0], [cw[0].bb], via_edges=[(bb, si["edges"][True])])[0]:
-                cond_ok = True
+            # `offset != cursor` taken, or `offset == cursor` not taken (a guard clause that returns early)
+            lab = True if (s[0] == "bin" and s[1] == "Ne") else (False if (s[0] == "bin" and s[1] == "Eq") else None)
+            if lab is not None and si["edges"].get(lab) is not None and b.must_pass([0], [cw[0].bb], via_edges=[(bb, si["edges"][lab])])[0]:
+                sides = [peel(s[2]), peel(s[3])]
+                if s[1] == "Ne" or (any(chain(x, extra=ELEM)[1][-1:] == ["offset"] for x in sides)
+                                    and any(cursor_term is not None and same_shape(x, peel(cursor_term)) for x in sides)):
+                    cond_ok = True
     R.ob("compact/skip-in-place", cond_ok, "entries already in place are left untouched (offset != cursor guards the move)", where=b.span)
 
 
